@@ -124,6 +124,11 @@ def r19_1(ctx):
                         step = True
                     elif v[0] == 'bin' and v[1] == 'Add' and v[2][0] == 'havoc' and v[2][1] == (gl,) and v[3] == ('const', 1):
                         step = True
+        if not (okg and step) and g is not None:
+            # `for gen in 0.. { .. }`: the item of an integer range iterator stepping by one
+            rng_item = g[0] == 'field' and g[2] == '0' and g[1][0] == 'variant' and g[1][2] == 'Some' and is_call(g[1][1], '::next') and 'ops::Range' in str(g[1][1][1]) and 'StepBy' not in str(g[1][1][1])
+            if rng_item:
+                okg = step = True
         ctx.check(R, okg and step, 'generation', 'the generation must be a counter that grows by one per union round: %s' % fmt(g)[:60], fn=mg)
 
 
